@@ -71,6 +71,25 @@ def gen(n):
 if X:
     Y = f(1)
 ''',
+    "posonly-local-import": '''import os
+
+
+def clamp(value, lo, hi, /):
+    return value
+
+
+def lazy(n):
+    from collections import OrderedDict  # needed at run time
+    return OrderedDict(a=n)
+
+
+class K:
+    def m(self, x, /):
+        return x
+
+    def add(self, n, /, *, k=0):
+        return n
+''',
     "future": '''from __future__ import annotations
 import sys
 
@@ -102,7 +121,7 @@ def erase(tree):
 
 
 def strip_added(tree, original):
-    orig_imports = {ast.unparse(s) for s in ast.walk(original) if isinstance(s, (ast.Import, ast.ImportFrom))}
+    orig_imports = {ast.unparse(s) for s in original.body if isinstance(s, (ast.Import, ast.ImportFrom))}
     orig_names = {a.name for s in ast.walk(original) if isinstance(s, ast.ImportFrom) for a in s.names}
     body = []
     for st in tree.body:
@@ -112,7 +131,7 @@ def strip_added(tree, original):
             elif isinstance(st, ast.ImportFrom):
                 # an existing `from typing import List` may have gained names: keep only the original ones
                 keep = [a for a in st.names if any(ast.unparse(o).startswith("from %s import" % st.module) and a.name in [x.name for x in o.names]
-                                                   for o in ast.walk(original) if isinstance(o, ast.ImportFrom))]
+                                                   for o in original.body if isinstance(o, ast.ImportFrom))]
                 if keep:
                     st.names = keep
                     body.append(st)
@@ -156,14 +175,15 @@ def run(ctx):
                 f.write(src)
             importlib.invalidate_caches()
             mod = importlib.import_module(name)
-            funcs = [getattr(mod, n) for n in ("f", "partly", "co", "gen") if hasattr(mod, n)]
+            funcs = [getattr(mod, n) for n in ("f", "partly", "co", "gen", "clamp", "lazy") if hasattr(mod, n)]
             K = getattr(mod, "K")
-            funcs += [K.m] + ([K.cm.__func__, K.sm, K.p.fget] if hasattr(K, "cm") else [])
+            funcs += [K.m] + ([K.cm.__func__, K.sm, K.p.fget] if hasattr(K, "cm") else []) + ([K.add] if hasattr(K, "add") else [])
             import inspect
             for trial in range(6 if ctx["tier"] == "quick" else 40):
                 subset = [fn for fn in funcs if rnd.random() < 0.6] or funcs[:1]
                 for k in (0, 3):
-                    vals = [1, "s", None, [1], {"a": 1}, {"a": 1, "b": "x"}, mod.K()]
+                    import collections as _c
+                    vals = [1, "s", None, [1], {"a": 1}, {"a": 1, "b": "x"}, mod.K(), _c.OrderedDict(a=1)]
                     traces = []
                     for fn in subset:
                         sig = inspect.signature(fn)
@@ -181,6 +201,7 @@ def run(ctx):
                             H.violation("monkeytype.cli:apply_stub_using_libcst", "apply-fails:%s:%s" % (key, type(e).__name__), "apply fails or produces invalid Python", {"stub": stub[:600]}, repr(e)[:400])
                             continue
                         problems = []
+                        known_second = False
                         orig = ast.parse(src)
                         if ast.dump(erase(strip_added(ast.parse(out), orig))) != ast.dump(erase(ast.parse(src))):
                             if not (confine and sn != "future" and ast.dump(erase(strip_added(ast.parse(out.replace("from __future__ import annotations\n", "", 1)), orig))) == ast.dump(erase(ast.parse(src)))):
@@ -196,13 +217,63 @@ def run(ctx):
                         try:
                             again = apply_stub_using_libcst(stub, out, overwrite, confine)
                             if again != out:
-                                problems.append("second application changes the source")
+                                import difflib
+                                added = [l[1:] for l in difflib.unified_diff(out.splitlines(), again.splitlines(), lineterm="", n=0) if l.startswith("+") and not l.startswith("+++")]
+                                removed = [l[1:] for l in difflib.unified_diff(out.splitlines(), again.splitlines(), lineterm="", n=0) if l.startswith("-") and not l.startswith("---")]
+                                if confine and overwrite and not removed and added and all(a_.startswith(("from ", "import ")) and ("    " + a_) in out for a_ in added):
+                                    known_second = True
+                                else:
+                                    problems.append("second application changes the source: +%s -%s" % (added[:3], removed[:3]))
                         except Exception as e:
                             problems.append("second application fails: %r" % e)
-                        if problems:
+                        if known_second and not problems:
+                            H.violation("monkeytype.cli:apply_stub_using_libcst", "C15-second-apply-readds-confined-import",
+                                        "with --pep_563 and overwriting, a second application re-adds at module level an import that the first application confined under TYPE_CHECKING",
+                                        {"source": sn, "overwrite": overwrite, "confine": confine}, {"result_head": out[:300]})
+                        elif problems:
                             H.violation("monkeytype.cli:apply_stub_using_libcst", "apply:%s:%s" % (key, problems[0][:100]), "apply: " + "; ".join(problems[:3]), {"source": sn, "stub": stub[:700]}, {"result": out[:900], "problems": problems})
                         else:
                             H.ok(key, sample={"source": sn, "traced": [f_.__qualname__ for f_ in subset][:4], "k": k, "overwrite": overwrite, "confine": confine})
+        # ---- through the CLI: a module inside a package with relative / local imports, `apply` with and without --pep_563
+        import subprocess
+        import monkeytype
+        from runtime.fixgen import Fixture
+        H.section("apply through the CLI on a package module", "module inside a package using `from .models import User` and a function-local import; traced with monkeytype.trace, `monkeytype apply [--pep_563]`; "
+                  "the rewritten file keeps its erased AST and still imports in a fresh interpreter", "2 flag sets")
+        APP = "from .models import User\n\n\ndef get(u, n=1):\n    return u\n\n\ndef lazy(n):\n    from .models import Extra  # run-time use\n    return Extra()\n\n\nRESULT = get(User()).__class__.__name__\n"
+        for flags in ([], ["--pep_563"]):
+            fx = Fixture("fxc15_%d_%d" % (ctx["seed"], len(flags)))
+            try:
+                fx.write("models.py", "class User:\n    pass\n\n\nclass Extra:\n    pass\n")
+                fx.write("app.py", APP)
+                app = fx.module("app")
+                cfg = importlib.import_module(fx.name + "_cfg").CONFIG
+                with monkeytype.trace(cfg):
+                    app.get(app.User(), 2)
+                    app.lazy(1)
+                rc, out, err = fx.cli(["apply"] + flags + [fx.name + ".app"])
+                new_src = open(os.path.join(fx.pkg, "app.py")).read()
+                problems = []
+                if rc != 0:
+                    problems.append("apply exits with %r: %s" % (rc, err[-300:]))
+                else:
+                    orig = ast.parse(APP)
+                    got = new_src.replace("from __future__ import annotations\n", "", 1) if flags else new_src
+                    if ast.dump(erase(strip_added(ast.parse(got), orig))) != ast.dump(erase(ast.parse(APP))):
+                        problems.append("program text changed beyond annotations / imports")
+                    env = dict(os.environ, PYTHONPATH=os.pathsep.join([fx.dir] + [p_ for p_ in sys.path if p_]))
+                    pr = subprocess.run([sys.executable, "-c", "import %s.app as a; assert a.RESULT == 'User'; assert a.lazy(1).__class__.__name__ == 'Extra'" % fx.name], env=env, capture_output=True, text=True, cwd=fx.dir, timeout=120)
+                    if pr.returncode != 0:
+                        problems.append("rewritten module does not import / behave: %s" % pr.stderr[-300:])
+                    if "def get(u:" not in new_src:
+                        problems.append("annotation for get(u) is missing")
+                key = "cli-apply|%s" % flags
+                if problems:
+                    H.violation("monkeytype.cli:apply_stub_handler", "cli-apply:%s:%s" % (flags, problems[0][:100]), "apply through the CLI: " + "; ".join(problems[:3]), {"flags": flags}, {"result": new_src[:900], "problems": problems})
+                else:
+                    H.ok(key, sample={"flags": flags, "result_head": new_src[:200]})
+            finally:
+                fx.close()
     finally:
         sys.path.remove(tmp)
         shutil.rmtree(tmp, ignore_errors=True)
